@@ -82,7 +82,14 @@ func FindMajority(quorum, threshold uint, set ...uint) int {
 		return set[i] > set[j]
 	})
 
-	if quorum-sum+set[0] < th {
+	// NOTE the number of votes may be over quorum; quorum-sum would be
+	// overflowed.
+	var notvoted uint
+	if quorum > sum {
+		notvoted = quorum - sum
+	}
+
+	if notvoted+set[0] < th {
 		return -2
 	}
 
